@@ -290,6 +290,33 @@ def run(m: Model, r: Report, tier: str) -> None:
         r.check(okv, "R6", f"{ve[0].qualname}#blames-only-the-failing-source",
                 "the env/file source is named although the failing input is not compared with the env/file default: an invalid command-line value is then "
                 "reported as coming from the environment variable / config file whenever the option also has a (valid) value there", loc=ve[0].loc)
+        # the complete decision table of that test: the env / file source is blamed exactly when an extra default exists for this model and option and equals the failing input
+        if len(src_ifs) == 1:
+            from sa import miniterp as _mt18
+            t_ = src_ifs[0].test
+            ed = next((ast.unparse(x) for x in ast.walk(t_) if isinstance(x, ast.Attribute) and x.attr == "extra_defaults"), None)
+            mvar = avar = evar = None
+            for x in ast.walk(t_):
+                if isinstance(x, ast.Subscript) and isinstance(x.slice, ast.Name):
+                    if ast.unparse(x.value) == ed:
+                        mvar = x.slice.id
+                    elif isinstance(x.value, ast.Subscript) and ast.unparse(x.value.value) == ed:
+                        avar = x.slice.id
+                if isinstance(x, ast.Subscript) and isinstance(x.slice, ast.Constant) and x.slice.value == "input" and isinstance(x.value, ast.Name):
+                    evar = x.value.id
+            if None in (ed, mvar, avar, evar):
+                raise AnalysisError(f"{ve[0].qualname}: cannot identify the operands of `{ast.unparse(t_)[:80]}`")
+            rows = []
+            for edv, want in ((None, False), ({}, False), ({"M": {}}, False), ({"M": {"opt": ("file", "v")}}, True), ({"M": {"opt": ("file", "other")}}, False),
+                              ({"N": {"opt": ("file", "v")}}, False), ({"M": {"other": ("file", "v")}}, False)):
+                try:
+                    got = bool(_mt18.eval_expr(t_, {ed: edv, mvar: "M", avar: "opt", evar: {"input": "v"}}))
+                except _mt18.Raised:
+                    got = "raises"
+                if got != want:
+                    rows.append(f"extra_defaults={edv!r} -> {got}")
+            r.check(not rows, "R6", f"{ve[0].qualname}#source-decision", f"for the failing input 'v' of option 'opt' of model 'M' the env/file source is blamed on {rows[:3]}: it must be "
+                    "blamed exactly when an extra default for this model and option exists and is the failing input", loc=ve[0].loc)
     r.check("f'{source} ({INFO.config_section}:{NAME})'" in m.mtext(fc, None, rc) and "f'environment variable ({KEY})'" in m.mtext(fe, None, re_), "R6",
             f"{gb.qualname}#source-labels", "each extra default must carry a label of its source", loc=gb.loc)
 
